@@ -28,6 +28,7 @@ from .values import (
     INF,
     Inf,
     Opaque,
+    ScheduleDependence,
     Unsupported,
     binop,
     compare,
@@ -327,6 +328,9 @@ class Interp:
         v, ok = frame.lookup(name)
         if ok:
             if isinstance(v, Poison):
+                if v.prange_carried is not None and getattr(self, "_augassign_target", None) != name:
+                    raise ScheduleDependence(f"`{name}` is carried across iterations of the nb.prange loop at line {v.prange_carried} and read inside it "
+                                             f"[{frame.func.qualname if frame.func is not None else '?'}]")
                 raise Unsupported(f"read of `{name}`: {v.why}")
             return v
         if name in self.overrides:
@@ -1267,7 +1271,11 @@ class Interp:
         op = self._BINOPS[type(st.op)]
         t = st.target
         if isinstance(t, ast.Name):
-            cur = self.lookup_name(t.id, fr)
+            self._augassign_target = t.id  # `x += ..` alone is the reduction pattern numba supports, not a schedule dependence
+            try:
+                cur = self.lookup_name(t.id, fr)
+            finally:
+                self._augassign_target = None
             if isinstance(cur, NDArr):
                 # in-place on the same buffer
                 new = self.binop(op, cur, self.eval(st.value, fr))
@@ -1543,7 +1551,8 @@ class Interp:
         saved = dict(fr.locals)
         carried = {n for n in assigned if n in saved}
         for n in assigned:
-            fr.locals[n] = Poison(f"variable `{n}` would carry a value from one iteration of the loop at line {st.lineno} to the next (needs a loop invariant)")
+            fr.locals[n] = Poison(f"variable `{n}` would carry a value from one iteration of the loop at line {st.lineno} to the next (needs a loop invariant)",
+                                  prange_carried=st.lineno if (is_prange and n in carried) else None)
         fr.locals[st.target.id] = i
         tr = LoopTrace()
         tr.consts.append(i)
